@@ -355,6 +355,10 @@ class ScriptPubKey(Script):
     @classmethod
     def parse(cls, s):
         script_pubkey = super().parse(s)
+        if script_pubkey.raw is not None:
+            # malformed script (a push runs past the end): keep the raw bytes,
+            # do not normalize it into one of the standard templates
+            return script_pubkey
         if script_pubkey.is_p2pkh():
             return P2PKHScriptPubKey(script_pubkey.commands[2])
         elif script_pubkey.is_p2sh():
